@@ -344,6 +344,40 @@ pub fn inputs(thorough: bool) -> Vec<Input> {
     out
 }
 
+/// Small valid programs, each leaning on one capability or per-stage rule of the validator.
+pub fn capability_programs() -> Vec<(String, String)> {
+    let mut v: Vec<(String, String)> = vec![];
+    let vs = |body: &str| format!("@vertex fn vs_main(@builtin(vertex_index) vi: u32) -> @builtin(position) vec4<f32> {{\n{body}}}\n");
+    let fs = |body: &str| format!("@fragment fn fs_main(@builtin(position) p: vec4<f32>) -> @location(0) vec4<f32> {{\n{body}}}\n");
+    let cs = |body: &str| format!("@compute @workgroup_size(8) fn cs_main(@builtin(local_invocation_index) li: u32) {{\n{body}}}\n");
+    for (op, expr) in [("add", "subgroupAdd(x)"), ("ballot", "f32(subgroupBallot(x > 0.5).x)"), ("broadcast-first", "subgroupBroadcastFirst(x)"), ("max", "subgroupMax(x)"), ("shuffle", "subgroupShuffle(x, 1u)")] {
+        v.push((format!("subgroup-{op}|vertex"), vs(&format!("    let x = f32(vi);\n    return vec4<f32>({expr});\n"))));
+        v.push((format!("subgroup-{op}|fragment"), fs(&format!("    let x = p.x;\n    return vec4<f32>({expr});\n"))));
+        v.push((format!("subgroup-{op}|compute"), format!("@group(0) @binding(0) var<storage, read_write> out_buf: array<f32, 8>;\n{}", cs(&format!("    let x = f32(li);\n    out_buf[li] = {expr};\n")))));
+        v.push((format!("subgroup-{op}|vertex-via-helper"), format!("fn sg(x: f32) -> f32 {{\n    return {expr};\n}}\n{}", vs("    return vec4<f32>(sg(f32(vi)));\n"))));
+    }
+    v.push(("subgroup-builtins|compute".into(), "@group(0) @binding(0) var<storage, read_write> out_buf: array<u32, 8>;\n@compute @workgroup_size(8) fn cs_main(@builtin(subgroup_invocation_id) sid: u32, @builtin(subgroup_size) ssz: u32, @builtin(local_invocation_index) li: u32) {\n    out_buf[li] = sid + ssz;\n}\n".into()));
+    v.push(("subgroup-builtins|fragment".into(), "@fragment fn fs_main(@builtin(subgroup_invocation_id) sid: u32, @builtin(subgroup_size) ssz: u32) -> @location(0) vec4<f32> {\n    return vec4<f32>(f32(sid + ssz));\n}\n".into()));
+    v.push(("f64|compute".into(), format!("@group(0) @binding(0) var<storage, read_write> out_buf: array<f32, 8>;\n{}", cs("    let d: f64 = f64(li) * 0.5lf;\n    out_buf[li] = f32(d);\n"))));
+    v.push(("i64|compute".into(), format!("@group(0) @binding(0) var<storage, read_write> out_buf: array<u32, 8>;\n{}", cs("    let w: i64 = i64(li) * 4294967296li;\n    out_buf[li] = u32(w >> 32u);\n"))));
+    v.push(("u64|fragment".into(), fs("    let w: u64 = u64(p.x) + 18446744073709551615lu;\n    return vec4<f32>(f32(w & 255lu));\n")));
+    v.push(("atomic-f32|compute".into(), format!("@group(0) @binding(0) var<storage, read_write> acc_buf: array<atomic<f32>, 4>;\n{}", cs("    atomicAdd(&acc_buf[li % 4u], 1.5);\n"))));
+    v.push(("atomic-ops|compute".into(), format!("@group(0) @binding(0) var<storage, read_write> acc_buf: array<atomic<u32>, 4>;\nvar<workgroup> wg_acc: atomic<i32>;\n{}", cs("    let old = atomicMax(&acc_buf[0], li);\n    let r = atomicCompareExchangeWeak(&acc_buf[1], old, li);\n    atomicSub(&wg_acc, 1);\n    workgroupBarrier();\n"))));
+    v.push(("primitive-index|fragment".into(), "@fragment fn fs_main(@builtin(primitive_index) pi: u32) -> @location(0) vec4<f32> {\n    return vec4<f32>(f32(pi));\n}\n".into()));
+    v.push(("sample-index-mask|fragment".into(), "struct FsOut { @location(0) c: vec4<f32>, @builtin(sample_mask) m: u32 };\n@fragment fn fs_main(@builtin(sample_index) si: u32, @builtin(sample_mask) mask: u32) -> FsOut {\n    var o: FsOut;\n    o.c = vec4<f32>(f32(si));\n    o.m = mask;\n    return o;\n}\n".into()));
+    v.push(("multisampled|fragment".into(), format!("@group(0) @binding(0) var ms_tex: texture_multisampled_2d<f32>;\n@group(0) @binding(1) var ms_depth: texture_depth_multisampled_2d;\n{}", fs("    let c = textureLoad(ms_tex, vec2<i32>(p.xy), 1);\n    let d = textureLoad(ms_depth, vec2<i32>(p.xy), 0);\n    return c * d;\n"))));
+    v.push(("cube-array|fragment".into(), format!("@group(0) @binding(0) var cube_tex: texture_cube_array<f32>;\n@group(0) @binding(1) var cube_samp: sampler;\n{}", fs("    return textureSample(cube_tex, cube_samp, p.xyz, 1);\n"))));
+    v.push(("push-constant|vertex-fragment".into(), format!("var<push_constant> pc: vec4<f32>;\n{}{}", vs("    return pc * f32(vi);\n"), fs("    return pc + p;\n"))));
+    v.push(("early-depth-test|fragment".into(), "@fragment @early_depth_test fn fs_main() -> @location(0) vec4<f32> {\n    return vec4<f32>(1.0);\n}\n".into()));
+    v.push(("interpolate-sample|vertex-fragment".into(), "struct VsOut { @builtin(position) p: vec4<f32>, @location(0) @interpolate(perspective, sample) a: vec4<f32>, @location(1) @interpolate(flat) b: u32, @location(2) @interpolate(linear, centroid) c: f32 };\n@vertex fn vs_main() -> VsOut {\n    var o: VsOut;\n    return o;\n}\n@fragment fn fs_main(i: VsOut) -> @location(0) vec4<f32> {\n    return i.a * f32(i.b) * i.c;\n}\n".into()));
+    v.push(("storage-formats|compute".into(), format!("@group(0) @binding(0) var st_a: texture_storage_2d<rg11b10ufloat, write>;\n@group(0) @binding(1) var st_b: texture_storage_2d<r64uint, atomic>;\n@group(0) @binding(2) var st_c: texture_storage_2d<rgba16unorm, write>;\n{}", cs("    textureStore(st_a, vec2<i32>(0, 0), vec4<f32>(1.0));\n    textureStore(st_c, vec2<i32>(0, 0), vec4<f32>(1.0));\n"))));
+    v.push(("workgroup-uniform-load|compute".into(), format!("var<workgroup> flag: u32;\n@group(0) @binding(0) var<storage, read_write> out_buf: array<u32, 8>;\n{}", cs("    if li == 0u {\n        flag = 3u;\n    }\n    let f = workgroupUniformLoad(&flag);\n    out_buf[li] = f;\n"))));
+    v.push(("clip-distances|vertex".into(), "enable clip_distances;\nstruct VsOut { @builtin(position) p: vec4<f32>, @builtin(clip_distances) cd: array<f32, 2> };\n@vertex fn vs_main() -> VsOut {\n    var o: VsOut;\n    return o;\n}\n".into()));
+    v.push(("dual-source|fragment".into(), "enable dual_source_blending;\nstruct FsOut { @location(0) @blend_src(0) a: vec4<f32>, @location(0) @blend_src(1) b: vec4<f32> };\n@fragment fn fs_main() -> FsOut {\n    var o: FsOut;\n    return o;\n}\n".into()));
+    v.push(("ray-query|compute".into(), format!("@group(0) @binding(0) var acc_struct: acceleration_structure;\n{}", cs("    var rq: ray_query;\n    rayQueryInitialize(&rq, acc_struct, RayDesc(0u, 0xFFu, 0.1, 100.0, vec3<f32>(0.0), vec3<f32>(0.0, 0.0, 1.0)));\n    rayQueryProceed(&rq);\n"))));
+    v
+}
+
 pub fn run(tier: &str) -> i32 {
     let mut rep = Report::new("C17", tier);
     let thorough = rep.thorough();
@@ -370,6 +404,24 @@ pub fn run(tier: &str) -> i32 {
     let (placed, _) = crate::c03::space_b(thorough);
     for p in placed.into_iter().chain(crate::c03::space_c(false)).chain(crate::c03::space_a_k(false, 2)) {
         corpus.push((format!("c03|{}", p.key), p.src, Config { encase: true, ..Config::default() }));
+    }
+    // valid programs that need one particular validator capability / stage rule each (subgroup operations per stage,
+    // 64-bit types, float atomics, primitive index, multisampling, cube arrays, push constants, early depth test ...)
+    {
+        let caps = capability_programs();
+        let mut accepted = 0;
+        for (k, src) in caps {
+            if naga_check(&src).is_ok() {
+                accepted += 1;
+                corpus.push((format!("capability|{k}"), src, Config::default()));
+            } else {
+                rep.filtered("capability program: naga itself rejects it");
+            }
+        }
+        if accepted < 12 {
+            machinery(&format!("C17: only {accepted} capability programs are valid for naga"));
+        }
+        rep.set("capability_programs_accepted_by_naga", json!(accepted));
     }
     let cres = par_map(&corpus, |(key, src, cfg)| {
         let off = generate(src, cfg);
